@@ -768,7 +768,16 @@ def uncovered_readers(a):
 
 def unaccounted(a):
     ok = pol_names(a, "healed") | pol_names(a, "fileNames") | pol_names(a, "scratch") | a["known"]
-    return [p for p in a["names"] if not covered_py(a, p) and p not in ok]
+
+    def path_ok(p):
+        return covered_py(a, p) or p in ok or p.split(".")[0] in ok
+    out = []
+    for p in a["names"]:
+        kids = [q for q in a["subs"] if q.startswith(p + ".")]
+        if path_ok(p) or (kids and all(path_ok(q) for q in kids)):
+            continue
+        out.append(p)
+    return out
 
 
 def emit_lean(a):
